@@ -410,7 +410,8 @@ UFUNCS = {"np.sqrt", "np.abs", "np.cos", "np.sin", "np.arctan2", "np.exp",
           "np.arctan", "np.sinh", "np.cosh", "np.tanh", "np.arcsinh",
           "np.absolute", "np.log", "np.isnan", "np.emath.sqrt", "np.isclose",
           "np.logical_and", "np.logical_or", "np.logical_not", "np.angle",
-          "np.arcsin", "np.power", "np.hypot", "np.isfinite", "np.isinf"}
+          "np.arcsin", "np.power", "np.hypot", "np.isfinite", "np.isinf",
+          "np.clip"}
 
 
 class Interp:
